@@ -6,6 +6,8 @@ package main
 import (
 	"fmt"
 	"math/rand"
+	"os"
+	"path/filepath"
 	"strings"
 	"time"
 
@@ -40,7 +42,30 @@ func genCfg(r *rand.Rand, allowRSA bool) worldCfg {
 		cfg.KeyType = "p256"
 	}
 	cfg.PKCS8 = r.Intn(3) == 0
+	if outputCertsSpellings != nil && r.Intn(5) == 0 {
+		cfg.OutputCerts = outputCertsSpellings[r.Intn(len(outputCertsSpellings))]
+	}
 	return cfg
+}
+
+// outputCertsSpellings: spellings of <working directory>/etc/certs, set by prepareOutputCerts (nil when the working
+// directory could not be prepared: the dimension is then simply not drawn).
+var outputCertsSpellings []string
+
+// prepareOutputCerts moves the process into a private working directory that has an (empty) etc/certs directory, the
+// place where the agent looks for file-mounted workload certificates by default (./etc/certs/*.pem).
+func prepareOutputCerts() (cleanup func()) {
+	dir, err := os.MkdirTemp("", "agentsec-cwd-")
+	if err != nil {
+		return func() {}
+	}
+	if os.MkdirAll(filepath.Join(dir, "etc", "certs"), 0o755) != nil || os.Chdir(dir) != nil {
+		_ = os.RemoveAll(dir)
+		return func() {}
+	}
+	abs := filepath.Join(dir, "etc", "certs")
+	outputCertsSpellings = []string{abs, abs + "/", "./etc/certs", "etc/certs", "etc/../etc/certs", filepath.Join(dir, ".", "etc", "certs") + "/."}
+	return func() { _ = os.Chdir("/"); _ = os.RemoveAll(dir) }
 }
 
 func genRoots(r *rand.Rand) []int {
